@@ -271,7 +271,7 @@ func recordBranchAgreement(c *core.Ctx, rule string, fn *ssa.Function, recType s
 		}
 	})
 	c.Floor(rule, "record fields written by "+fname, len(fields), 3)
-	c.Floor(rule, "returns of "+fname, len(rets), 2)
+	c.Floor(rule, "returns of "+fname, len(rets), 1)
 	var names []string
 	for f := range fields {
 		names = append(names, f)
